@@ -161,7 +161,23 @@ func (r *Run) Mark(format string, a ...interface{}) {
 	fmt.Fprintln(r.cases, l)
 	fmt.Fprintln(r.impl, l)
 	r.Lines++
+	r.maybeFlush()
 }
+
+// maybeFlush: with VERIF_FLUSH=1 (set by ./check for the race-detector run, which may end the
+// process at any moment) every line reaches the files at once.
+func (r *Run) maybeFlush() {
+	if flushEach {
+		r.cases.Flush()
+		r.impl.Flush()
+	}
+}
+
+var flushEach = os.Getenv("VERIF_FLUSH") == "1"
+
+// Race reports whether this is the race-detector run of the thorough tier (tier "race"):
+// runners restrict themselves to their concurrent scenarios.
+func (r *Run) Race() bool { return r.Tier == "race" }
 
 // Line records one protocol line for the model driver and the observation of
 // the implementation it must reproduce (without the leading '=').
@@ -169,6 +185,7 @@ func (r *Run) Line(caseLine, implObs string) {
 	fmt.Fprintln(r.cases, r.Prop+" "+caseLine)
 	fmt.Fprintln(r.impl, "="+implObs)
 	r.Lines++
+	r.maybeFlush()
 }
 
 // Case counts one evaluated case. nontrivial says whether the case exercised
